@@ -23,7 +23,14 @@ pub fn render_block(case: &Value) -> String {
     let mut body = String::from("  begin\n");
     for &i in &pos {
         match kinds[i - 1].as_str() {
-            | "param" => body.push_str(&format!("    param p{i} : Int64 that\n")),
+            | "param" => {
+                let t = deps(i).first().map(|d| format!("T{d}")).unwrap_or_else(|| "Int64".to_string());
+                body.push_str(&format!("    param p{i} : {t} that\n"))
+            }
+            | "ty" => {
+                let t = deps(i).first().map(|d| format!("T{d}")).unwrap_or_else(|| "Int64".to_string());
+                body.push_str(&format!("    let T{i} = {t} that\n"))
+            }
             | "def" => {
                 let mut arms = format!(" | +C{i} : Unit");
                 for d in deps(i) {
@@ -39,6 +46,7 @@ pub fn render_block(case: &Value) -> String {
                 for d in deps(i) {
                     match kinds[d - 1].as_str() {
                         | "def" => s.push_str(&format!("let u{d} : D{d} = +C{d}() in ")),
+                        | "ty" => s.push_str(&format!("let u{d} : T{d} = 1 in ")),
                         | "val" => {
                             s.push_str(&format!("do r{k} <- ! t{d}; do s{k} <- ! (int64/add) {acc} r{k}; "));
                             acc = format!("s{k}");
@@ -75,7 +83,9 @@ pub fn render_block(case: &Value) -> String {
         }
     }
     body.push_str(&format!("    {s}do code <- ! (int64/mod) {acc} 256; ! (process/exit) code\n  end\n"));
-    let args: String = (1..=n).filter(|i| kinds[i - 1] == "param").map(|i| format!(" {}", 3 * i)).collect();
+    // arguments in the order the model predicts for the parameters (node i receives 3 * i)
+    let args: String = case["args"].as_array().map(|a| a.iter().map(|i| format!(" {}", 3 * i.as_u64().unwrap())).collect()).unwrap_or_default();
+    let _ = n;
     format!("{PRELUDE}let blk = {{\n{body}}} in\n! blk{args}\n")
 }
 
